@@ -34,7 +34,12 @@ PROP = dict(
               "window inside silence, single non-zero sample, all-zero record} x nfft {16,64,256} x (winlen,overlap) {(n,0),(n,n/2),(n/2,0),"
               "(n-3,2),(n/2,n/2-1)} x {rect, hamming, hann, kaiser 5} x real/complex: density sum over ALL segments (all-zero record: zero "
               "spectrum, also with power scaling), power-scaled peak of gated bin-centred tones (complex; real for rect/winlen=nfft/no overlap), "
-              "mscohere of 3x / filtered / independent with silent segments in x",
+              "mscohere of 3x / filtered / independent with silent segments in x. EVERY PUBLIC OVERLOAD: the 4 welch overloads of "
+              "spectrum.h {(x,winlen), (x,win), (x,winlen,nov,nfft), (x,win,nov,nfft)} x scale {omitted, Psd, Power} x real/complex = 24 "
+              "overload x type combinations, each compared bit for bit (pxx and f) with welch(x, win_array, noverlap, nfft, type) for the "
+              "documented defaults, winlen {2,3,5,8,16,17,31,32,33,64,65,100,129,200,256,257,1000}, long forms with overlap "
+              "{0,1,winlen/2,winlen-1} x nfft {nextpow2, 2 nextpow2}; the 3 shorter mscohere overloads bit for bit against "
+              "mscohere(x,y,win_array,noverlap,nfft) on the same grid",
         thorough="welch grid: nfft {8,16,32,64,128,256,512,1024,2048,4096}; for nfft<=128 every window length 2..nfft (every overlap for "
                  "winlen<=64, else 7 overlaps), above 7 window lengths {nfft/4,nfft/3,nfft/2,nfft/2+1,3nfft/4,nfft-1,nfft} x 7 overlaps "
                  "{0,1,wl/4,wl/2,3wl/4,wl-2,wl-1}; 10 windows at every nfft; signal lengths j in {0,1,2,5}; long signals (N=100000 at nfft "
@@ -45,7 +50,8 @@ PROP = dict(
                  "winlen<=32), 10 windows, the quick letters plus {-x, (3x,-7x), (1e5x,1e-5x), 1e6x, -1e-6x, delayed by 3, x+0.5*independent}, "
                  "4 overload forms; default-argument forms for every non-power-of-two winlen 2..300 and {500,513,1000,1023,1025,2000,3000,"
                  "4095,4097}. Power-scaled peak for every window length 129..600 (hamming, rect; nfft = nextpow2; overlap {0,winlen/2}; real and "
-                 "complex) in addition to the quick set. Silent-segment letters for nfft {8,16,32,64,256,1024} and all 10 windows"),
+                 "complex) in addition to the quick set. Silent-segment letters for nfft {8,16,32,64,256,1024} and all 10 windows. The 24 welch overload x type combinations and the 3 "
+                 "mscohere overloads for every winlen 2..300 and {500,513,1000,1023,1024,1025,2000,4095,4097}"),
     deadline=dict(quick=150, thorough=3000),
     assumptions=COMMON_ASSUME + [
         "window lengths <= nfft, signal length >= window length, noverlap < winlen (in-domain inputs only); windows whose largest weight "
@@ -60,6 +66,9 @@ PROP = dict(
         "gated tones (silent segments): the power-scaled peak of a bin-centred complex tone is compared with A^2 mean_seg (sum_n w[n] g[n])^2 / "
         "(sum w)^2 for the gate g and the harness's own segmentation (equal to the statement's A^2 for an ungated tone); an all-zero "
         "record must give an all-zero spectrum (the power identity with zero power); coherence of an all-zero record is undefined and not generated",
+        "overload forms: the header documents the shorter overloads as the explicit form with defaults (hamming(winlen), noverlap = winlen/2, "
+        "nfft = 2^nextpow2(winlen), scale = Psd), so bit-for-bit equality with the explicit call (window = the library's own "
+        "window::hamming for the winlen forms) is demanded",
         "nfft that is not a power of two is documented as unsupported; an exception or a well-formed result is accepted",
         "coherence letters are dense, so every bin has non-zero power; a non-finite coherence is reported as a failure",
         "complex frequency vector: any arithmetic progression of bin frequencies m/nfft inside [-0.5, 1) is accepted; the label check "
